@@ -15,6 +15,11 @@
 //!                  (its whole runtime is dropped), a new runtime and new server
 //!                  components start on the same directory        - all k! orders
 //!
+//!   trunc:p:c:v    (set S2) real entries 1..c-1 and junk at c..k appended, the first p (< c)
+//!   trunc2:p:c:v   committed and executed, then the uncommitted junk overwritten (trunc2: twice)
+//!                  by the real entries c..k, committed in one call (v=one), two calls (v=two:j)
+//!                  or replayed after a crash (v=crash)        - all (k-p)! orders
+//!
 //! Oracle (only what the statement says): the sequence of log indexes whose
 //! execution completed is 1..k in increasing order, each exactly once; the
 //! final server state (users, databases, roles, contents, audit) equals that
@@ -201,7 +206,9 @@ fn run_scenario(sc: &Scenario, base: &Snapshot, scratch: &Scratch, stats: &Stats
         verif::gate_enable(true);
         let mut subscription = server.cluster.raft.read().await.storage.subscribe().await;
         let mut receivers = vec![];
-        {
+        let parts: Vec<&str> = sc.mode.split(':').collect();
+        let is_trunc = parts[0] == "trunc" || parts[0] == "trunc2";
+        if !is_trunc {
             let mut raft = server.cluster.raft.write().await;
             for (i, (_, a)) in entries.iter().enumerate() {
                 let (sender, receiver): (Notifier, _) = tokio::sync::oneshot::channel();
@@ -214,11 +221,72 @@ fn run_scenario(sc: &Scenario, base: &Snapshot, scratch: &Scratch, stats: &Stats
         let mut exec_order: Vec<i64> = vec![];
         let mut expect_parked: Vec<u64> = (1..=k).collect();
 
-        let (mode, j) = match sc.mode.split_once(':') {
-            Some((m, j)) => (m, j.parse::<u64>().map_err(|_| "bad mode")?),
-            None => (sc.mode.as_str(), 0),
-        };
+        let num = |i: usize| -> Result<u64, String> { parts.get(i).and_then(|x| x.parse::<u64>().ok()).ok_or_else(|| format!("bad mode {}", sc.mode)) };
+        let (mode, j) = (parts[0], if is_trunc || parts.len() < 2 { 0 } else { num(1)? });
         match mode {
+            "trunc" | "trunc2" => {
+                // history with truncation: real entries 1..cut-1 and junk at cut..k are appended, the
+                // first p (< cut) are committed and executed, then the uncommitted junk is overwritten
+                // (trunc2: first by other junk, then) by the real entries cut..k, which are committed
+                // in one call / two calls / and replayed after a crash
+                let (p, cut, variant) = (num(1)?, num(2)?, *parts.get(3).unwrap_or(&"one"));
+                if !(p < cut && cut <= k) {
+                    return Err(format!("bad mode {}", sc.mode));
+                }
+                let junk = |n: u64| db_exec(q(vec![QueryBuilder::insert().nodes().aliases(format!("junk{n}")).query().into()]));
+                {
+                    let mut raft = server.cluster.raft.write().await;
+                    for i in 1..=k {
+                        let index = base_index + i;
+                        if i < cut {
+                            let (sender, receiver): (Notifier, _) = tokio::sync::oneshot::channel();
+                            receivers.push(receiver);
+                            raft.storage.append(Log { db_id: None, index, term: 1, data: entries[i as usize - 1].1.clone() }, Some(sender)).await.map_err(|e| format!("append: {}", e.description))?;
+                        } else {
+                            raft.storage.append(Log { db_id: None, index, term: 1, data: junk(i) }, None).await.map_err(|e| format!("append junk: {}", e.description))?;
+                        }
+                    }
+                }
+                if p > 0 {
+                    server.cluster.raft.write().await.storage.commit(base_index + p).await.map_err(|e| format!("commit: {}", e.description))?;
+                    for i in 1..=p {
+                        let idx = base_index + i;
+                        if !wait_until(FINISH_WAIT_MS, || verif::gate_parked().contains(&idx)).await {
+                            notes.push(format!("entry {i} never reached the gate"));
+                        }
+                        verif::gate_release(idx);
+                        stats.releases.fetch_add(1, Ordering::Relaxed);
+                        match tokio::time::timeout(Duration::from_millis(FINISH_WAIT_MS), subscription.recv()).await {
+                            Ok(Ok(v)) => exec_order.push(v as i64 - base_index as i64),
+                            _ => notes.push(format!("entry {i} did not complete")),
+                        }
+                    }
+                }
+                {
+                    let mut raft = server.cluster.raft.write().await;
+                    if mode == "trunc2" {
+                        for i in cut..=k {
+                            raft.storage.append(Log { db_id: None, index: base_index + i, term: 2, data: junk(100 + i) }, None).await.map_err(|e| format!("append junk: {}", e.description))?;
+                        }
+                    }
+                    for i in cut..=k {
+                        let (sender, receiver): (Notifier, _) = tokio::sync::oneshot::channel();
+                        receivers.push(receiver);
+                        raft.storage.append(Log { db_id: None, index: base_index + i, term: 3, data: entries[i as usize - 1].1.clone() }, Some(sender)).await.map_err(|e| format!("append: {}", e.description))?;
+                    }
+                    if variant == "two" {
+                        raft.storage.commit(base_index + num(4)?).await.map_err(|e| format!("commit: {}", e.description))?;
+                    }
+                    raft.storage.commit(base_index + k).await.map_err(|e| format!("commit: {}", e.description))?;
+                }
+                expect_parked = (p + 1..=k).collect();
+                if variant == "crash" {
+                    if !wait_until(FINISH_WAIT_MS, || verif::gate_parked().len() as u64 >= k - p).await {
+                        notes.push(format!("only {:?} reached the gate before the crash", verif::gate_parked()));
+                    }
+                    return Ok(Err((base_index, notes, exec_order, expect_parked)));
+                }
+            }
             "one" => {
                 server.cluster.raft.write().await.storage.commit(base_index + k).await.map_err(|e| format!("commit: {}", e.description))?;
             }
@@ -266,7 +334,7 @@ fn run_scenario(sc: &Scenario, base: &Snapshot, scratch: &Scratch, stats: &Stats
                 if !wait_until(FINISH_WAIT_MS, || verif::gate_arrived().len() as u64 >= k).await {
                     notes.push(format!("only {:?} reached the gate before the crash", verif::gate_arrived()));
                 }
-                return Ok(Err((base_index, notes)));
+                return Ok(Err((base_index, notes, vec![], (1..=k).collect())));
             }
             _ => return Err("bad mode".to_string()),
         }
@@ -274,11 +342,11 @@ fn run_scenario(sc: &Scenario, base: &Snapshot, scratch: &Scratch, stats: &Stats
         finish(sc, server, subscription, receivers, exec_order, expect_parked, base_index, notes, stats).await.map(Ok)
     });
     rt.shutdown_timeout(Duration::from_millis(200));
-    let r: Result<Result<Obs, (u64, Vec<String>)>, String> = r;
+    let r: Result<Result<Obs, (u64, Vec<String>, Vec<i64>, Vec<u64>)>, String> = r;
     let out = match r {
         Err(e) => Err(e),
         Ok(Ok(obs)) => Ok(obs),
-        Ok(Err((base_index, notes))) => {
+        Ok(Err((base_index, notes, exec_before, expect))) => {
             // mode crash: the runtime with every task of the old process is gone; a new process
             // (new runtime, all server components rebuilt from the same data directory) starts.
             // ClusterStorage::new re-executes the committed entries that are not marked executed.
@@ -287,8 +355,7 @@ fn run_scenario(sc: &Scenario, base: &Snapshot, scratch: &Scratch, stats: &Stats
             let r2 = rt2.block_on(async {
                 let server = Server::start_opts(&data, false).await?;
                 let subscription = server.cluster.raft.read().await.storage.subscribe().await;
-                let expect: Vec<u64> = (1..=sc.k as u64).collect();
-                finish(sc, server, subscription, vec![], vec![], expect, base_index, notes, stats).await
+                finish(sc, server, subscription, vec![], exec_before, expect, base_index, notes, stats).await
             });
             rt2.shutdown_timeout(Duration::from_millis(200));
             r2
@@ -312,7 +379,7 @@ async fn finish(
     stats: &Stats,
 ) -> Result<Obs, String> {
     let k = sc.k as u64;
-    let release_wait_ms = if sc.k <= 3 { RELEASE_WAIT_MS * 3 } else { RELEASE_WAIT_MS };
+    let release_wait_ms = if sc.k <= 3 { RELEASE_WAIT_MS * 2 } else { RELEASE_WAIT_MS };
         // release in the given order; an index that is not parked (a serialising
         // implementation has not started it yet) is retried in later passes
         let mut pending: Vec<u64> = sc.order.clone();
@@ -412,6 +479,32 @@ fn scenarios_for(set: &str, k: usize) -> Vec<Scenario> {
     out
 }
 
+/// Histories in which uncommitted entries are overwritten (see run_scenario, "trunc").
+fn trunc_scenarios(set: &str, k: usize, all_variants_for_trunc2: bool) -> Vec<Scenario> {
+    let mut out = vec![];
+    for p in 0..k {
+        let rest: Vec<u64> = (p as u64 + 1..=k as u64).collect();
+        for cut in p + 1..=k {
+            let mut variants = vec!["one".to_string(), "crash".to_string()];
+            if all_variants_for_trunc2 {
+                // thorough only: the two-commit splits
+                for j in p + 1..k {
+                    variants.push(format!("two:{j}"));
+                }
+            }
+            for order in permutations(&rest) {
+                for v in &variants {
+                    out.push(Scenario { set: set.to_string(), k, mode: format!("trunc:{p}:{cut}:{v}"), order: order.clone() });
+                    if all_variants_for_trunc2 || v == "one" {
+                        out.push(Scenario { set: set.to_string(), k, mode: format!("trunc2:{p}:{cut}:{v}"), order: order.clone() });
+                    }
+                }
+            }
+        }
+    }
+    out
+}
+
 fn mode_kind(mode: &str) -> &str {
     mode.split(':').next().unwrap_or(mode)
 }
@@ -466,6 +559,10 @@ pub(crate) fn run(args: &Args) -> i32 {
         let doc = crate::vh::world::replay_doc(path);
         let sc = Scenario::from_json(&doc);
         let mut reference_sc = sc.clone();
+        if sc.mode.starts_with("trunc") {
+            reference_sc.mode = "one".to_string();
+            reference_sc.order = (1..=sc.k as u64).collect();
+        }
         reference_sc.order.sort();
         let reference = run_scenario(&reference_sc, &base, &scratch, &stats).unwrap_or_else(|e| engine::machinery_failure(&e));
         let obs = run_scenario(&sc, &base, &scratch, &stats).unwrap_or_else(|e| engine::machinery_failure(&e));
@@ -484,18 +581,29 @@ pub(crate) fn run(args: &Args) -> i32 {
         Tier::Quick => QUICK_MAX_K,
         Tier::Thorough => THOROUGH_MAX_K,
     };
+    let max_trunc_k = match args.tier {
+        Tier::Quick => 3,
+        Tier::Thorough => 4,
+    };
     let states = DistinctCounter::default();
     let outcomes = DistinctCounter::default();
     let mut per_k = serde_json::Map::new();
     for set in ["S1", "S2"] {
         for k in 2..=max_k {
-            let list = scenarios_for(set, k);
+            let mut list = scenarios_for(set, k);
+            if set == "S2" && k <= max_trunc_k {
+                list.extend(trunc_scenarios(set, k, args.tier == Tier::Thorough));
+            }
             let mut references: std::collections::BTreeMap<String, Obs> = Default::default();
             let mut n = 0u64;
             for sc in &list {
                 n += 1;
-                if !references.contains_key(&sc.mode) {
+                let ref_mode = if sc.mode.starts_with("trunc") { "one".to_string() } else { sc.mode.clone() };
+                if !references.contains_key(&ref_mode) {
                     let mut r = sc.clone();
+                    r.mode = ref_mode.clone();
+                    r.order = (1..=k as u64).collect();
+                    r.order.retain(|i| ref_mode == "one" || sc.order.contains(i));
                     r.order.sort();
                     let o = run_scenario(&r, &base, &scratch, &stats).unwrap_or_else(|e| engine::machinery_failure(&format!("reference run {}: {e}", r.to_json())));
                     // the in-order run must itself be well-behaved, else there is no reference
@@ -507,9 +615,9 @@ pub(crate) fn run(args: &Args) -> i32 {
                             r.to_json(),
                         );
                     }
-                    references.insert(sc.mode.clone(), o);
+                    references.insert(ref_mode.clone(), o);
                 }
-                let reference = &references[&sc.mode];
+                let reference = &references[&ref_mode];
                 let obs = run_scenario(sc, &base, &scratch, &stats).unwrap_or_else(|e| engine::machinery_failure(&format!("scenario {}: {e}", sc.to_json())));
                 states.insert(obs.state.to_string().as_bytes());
                 outcomes.insert(format!("{:?}|{:?}|{}", obs.exec_order, obs.results, obs.state).as_bytes());
@@ -541,6 +649,7 @@ pub(crate) fn run(args: &Args) -> i32 {
     report.set("distinct_outcomes", json!(outcomes.len()));
     report.set("exhaustive", json!(true));
     report.set("max_k", json!(max_k));
+    report.set("max_k_truncation_histories", json!(max_trunc_k));
     report.set("scenarios_per_set_and_k", Value::Object(per_k));
     report.set("release_wait_ms", json!(RELEASE_WAIT_MS));
     report.set("what", json!("for 2 action sets and every k in 2..=max_k: all k! release orders of the k execution tasks for modes one-commit, two-commits (every split), crash-before-execution+restart, and all (k-j)! orders after restart with j entries executed; states = distinct final server states, transitions = task releases, traces = complete scenario executions on the real ClusterStorage (including reference and confirmation runs)"));
